@@ -363,4 +363,6 @@ def run(chk, ctx):
     round4.intrinsics_pure(chk, ctx)
     round4.template_context_single(chk, ctx)
     round4.fresh_iteration_input(chk, ctx)   # ItemSelector is evaluated for every item
+    from . import round5
+    round5.expander_applied_to_template_only(chk, ctx, "C13.R10")
     chk.assume("hashlib, base64, json, uuid behave as documented")
